@@ -1,7 +1,7 @@
 (* C01 - CSV write-then-read preserves every well-formed table bundle.
    Only statements here; every proof is one [exact] of a lemma from Proofs/.
    The text layer (lines and cells recovered exactly), one cell, one table, and the whole bundle
-   read (write_csv ts) in the reader model, for tables with zero or more rows and at least one column.  The same composition is, in
+   read (write_csv ts) in the reader model, for tables with zero or more rows and zero or more columns.  The same composition is, in
    addition, evaluated on every generated bundle by the correspondence check (Corr/C01.v). *)
 From Coq Require Import List Arith.
 From PdV Require Import Text TextProofs WriteProofs ParseTable RoundTrip RoundTripZero.
@@ -60,9 +60,9 @@ Theorem C01_bundle_roundtrip :
 Proof. exact bundle_roundtrip. Qed.
 Print Assumptions C01_bundle_roundtrip.
 
-(* The same for tables with zero or more rows (wf_any: a table with rows as above, or a table
-   without rows; a row-wise table without rows is written with one extra empty line, which the
-   segmentation absorbs). *)
+(* The same for every well-formed table (wf_any: a table with rows as above, a table with columns
+   but no rows, or a table with neither; such tables are written with extra empty lines - one for
+   the missing data rows, two more for missing name and unit lines - which the segmentation absorbs). *)
 Theorem C01_bundle_roundtrip_any :
   forall (parse_float : str -> option ftok) (parse_dt : str -> dres) (cfg : fixer_cfg) (raising : bool)
          (sep : N) (ts : list wtable),
